@@ -73,12 +73,41 @@ def nest_programs():
     return out
 
 
-def hostile_programs():
+def hostile_programs(pairs=False):
     pre = ("var depth = 0; var a = [1, 2, 3, 4, 5, 6]; var buf = new ArrayBuffer(8); var rab = new ArrayBuffer(8, {maxByteLength: 16}); var ta = new Uint8Array(rab); var n = 0;\n")
     out = []
     for it in ITERATORS:
-        for m in MUTATIONS:
+        for m in ([a + "; " + b for a in MUTATIONS for b in MUTATIONS if "throw" not in a] if pairs else MUTATIONS):
             out.append(pre + "var cb = function () { if (n++ < 40) { " + m + " } return 0 };\ntry { " + it + " } catch (e) { print('E', typeof e == 'object' && e ? e.name : e) } print(n > 0, Array.isArray(a) ? a.length : a);")
+    return out
+
+
+COLL_ITERS = [
+    "m.forEach(cb)", "for (var e of m) cb(e)", "for (var k of m.keys()) cb(k)", "for (var v of m.values()) cb(v)",
+    "var it = m.entries(); it.next(); cb(); it.next(); cb(); it.next(); cb(); it.next()", "s.forEach(cb)", "for (var e of s) cb(e)",
+    "var it = s.values(); it.next(); cb(); it.next(); cb(); it.next(); cb(); it.next()", "Array.from(m, cb); Array.from(s, cb)", "Map.groupBy(m, cb); Object.groupBy(s, cb)",
+    "new Map(m.entries()).size; new Set({[Symbol.iterator]() { var i = s.values(); return {next() { cb(); return i.next() }} }})",
+]
+COLL_MUTS = [
+    "m.delete(1); s.delete(1)", "m.delete(2); s.delete(2)", "m.delete(3); s.delete(3)", "m.clear(); s.clear()", "m.set(4, 'd'); s.add(4)", "m.set(1, 'z'); s.add(1)",
+    "m.set(n + 10, n); s.add(n + 10)", "m.forEach(function () {}); s.forEach(function () {})", "depth++ < 2 && (m.forEach(cb), s.forEach(cb))", "m.delete(n); s.delete(n)",
+    "for (var z of m) break; for (var z of s) break", "m.keys().next(); s.values().next()",
+]
+
+
+def collection_programs(tier):
+    """Map / Set iteration x every sequence of <= 2 (thorough: <= 3) mutations of the collection performed inside the callback,
+    each followed by reads of size and of a fresh iteration while the outer iteration is still live."""
+    pre = "var depth = 0, n = 0; var m = new Map([[1, 'a'], [2, 'b'], [3, 'c']]); var s = new Set([1, 2, 3]);\n"
+    obs = "print(m.size, s.size, [...m.keys()].join(), [...s].join(), m.has(2), s.has(2), m.get(1))"
+    seqs = [[a] for a in COLL_MUTS] + [[a, b] for a in COLL_MUTS for b in COLL_MUTS]
+    if tier == "thorough":
+        seqs += [[a, b, c] for a in COLL_MUTS for b in COLL_MUTS for c in COLL_MUTS]
+    out = []
+    for it in COLL_ITERS:
+        for q in seqs:
+            body = "; ".join(q)
+            out.append(pre + "var cb = function () { if (n++ < 12) { " + body + "; " + obs + " } return 0 };\ntry { " + it + " } catch (e) { print('E', typeof e == 'object' && e ? e.name : e) } " + obs + ";")
     return out
 
 
@@ -94,6 +123,11 @@ def run(chk):
     # 3-5: programs through the generic worker
     nests = nest_programs()
     host = hostile_programs()
+    coll = collection_programs(tier)
+    if tier == "thorough":
+        # arrays: every ordered pair of mutations inside one callback
+        host += hostile_programs(pairs=True)
+    host += coll
     lim = {"loop": 5000, "rec": 400}
     jobs = [{"i": i, "src": p, "cfg": lim} for i, (_, _, p) in enumerate(nests)] + [{"i": len(nests) + i, "src": p, "cfg": lim} for i, p in enumerate(host)]
     pairs = [(a, b) for a in POOL for b in POOL]
@@ -115,7 +149,8 @@ def run(chk):
         if not core.is_bad(r["completion"]) and not r["completion"].startswith(("EarlySyntaxError", "Limit")):
             deepest[name] = max(deepest.get(name, 0), n)
     chk.part("nesting", constructs=len(NEST), depths="1..64", deepest_depth_evaluated=deepest)
-    chk.part("hostile", programs=len(host), iterators=len(ITERATORS), mutations=len(MUTATIONS))
+    chk.part("hostile", programs=len(host), iterators=len(ITERATORS), mutations=len(MUTATIONS), collection_programs=len(coll), collection_iterations=len(COLL_ITERS), collection_mutations=len(COLL_MUTS),
+             mutation_sequences_per_callback="arrays 1 (thorough: <= 2), Map/Set <= 2 (thorough: <= 3)")
     chk.part("reuse", ordered_pairs=len(pairs), pool=len(POOL))
     for kind, src, detail, rep in bad:
         # panic locations are normalised (line numbers move with unrelated edits)
